@@ -260,6 +260,16 @@ func (f *STFS) Initialize(rootProposal string, rootPerm os.FileMode) (root strin
 
 			f.onHeader,
 		); err != nil {
+			// If only the tail of the tape could not be indexed (i.e. the last record has been cut off), keep what is in
+			// front of it instead of starting over with a new root
+			if root, rootErr := f.metadata.Metadata.GetRootPath(context.Background()); rootErr == nil {
+				if err := f.readOps.GetBackend().CloseReader(); err != nil {
+					return "", err
+				}
+
+				return root, nil
+			}
+
 			return mkdirRoot()
 		}
 
